@@ -5,6 +5,7 @@ package main
 import (
 	"fmt"
 	"strings"
+	"verifharness/conc"
 
 	"github.com/makiuchi-d/gozxing"
 	"github.com/makiuchi-d/gozxing/oned"
@@ -839,8 +840,12 @@ func c03MultiHistory(r *fw.Rec, n int, allFormats bool) {
 	for _, s := range odAllUPCEAN {
 		writers[s] = s.writer()
 	}
+	forced := ""
 	read := func(s *odUPCEAN, after string) bool {
 		payload := string(byte('0'+rng.Intn(s.maxFirst))) + odDigits(rng, s.payload-1)
+		if forced != "" {
+			payload, forced = forced[:s.payload], ""
+		}
 		full := s.full(payload)
 		want, wantF := full, s.format
 		if s == odUPCA { // documented: without UPC_A among the requested formats a UPC-A symbol is the EAN-13 number with a leading 0
@@ -870,9 +875,21 @@ func c03MultiHistory(r *fw.Rec, n int, allFormats bool) {
 		r.Tally("multi_history_" + s.name + "_after_" + after)
 		return true
 	}
+	amb := conc.AmbiguousUPCA()
 	for i := 0; i < n; i++ {
 		if !read(odEAN8, "an earlier") || !read(odUPCA, "an EAN-8") || !read(odEAN8, "a UPC-A") || !read(odEAN13, "an EAN-8") || !read(odUPCE, "an EAN-13") || !read(odUPCA, "a UPC-E") {
 			return
+		}
+		if len(amb) > 0 {
+			// a UPC-A symbol that the EAN-8 decoder alone would accept too, directly after an EAN-8 symbol
+			if !read(odEAN8, "a UPC-A") {
+				return
+			}
+			forced = amb[i%len(amb)]
+			if !read(odUPCA, "an EAN-8 (this symbol also holds a verifying EAN-8 reading)") {
+				return
+			}
+			r.Tally("multi_history_ean8_lookalike_upca_after_ean8")
 		}
 	}
 	r.Nontrivial(fmt.Sprintf("multi-history/%v/%d", allFormats, rng.Uint64()))
@@ -1327,6 +1344,7 @@ func c03(c *fw.Ctx) {
 		c.Run(fmt.Sprintf("multi-history/%d", i), func(r *fw.Rec) { c03MultiHistory(r, 800, i%2 == 1) })
 	}
 	c.Floor("multi_history_upca_after_an EAN-8", 10000)
+	c.Floor("multi_history_ean8_lookalike_upca_after_ean8", 5000)
 	if !q {
 		c.Exhaustive("all 2 000 000 UPC-E numbers (number system 0/1 x 6 digits) written from the 7-digit form and read back at height 1")
 		c.Exhaustive("all 10 000 000 EAN-8 payloads written from the 7-digit form and read back at height 1")
